@@ -120,6 +120,13 @@ pub struct BM25Index<T: Tokenizer + Clone> {
     /// Index metadata.
     metadata: RwLock<BM25Metadata>,
 
+    /// Ids whose last `remove` was given text that did not add up to the
+    /// document's indexed length: entries filed under tokens that text did
+    /// not name are still in the postings. Harmless while the id is dead
+    /// (queries filter by `doc_tokens`, loading prunes them); swept out when
+    /// the id is inserted again. In-memory only.
+    stale_ids: RwLock<FxHashSet<u64>>,
+
     /// Maximum bucket ID currently in use
     max_bucket_id: AtomicU32,
 
@@ -413,6 +420,7 @@ where
             search_count: AtomicU64::new(0),
             last_saved_version: AtomicU64::new(0),
             mutation_gate: RwLock::new(()),
+            stale_ids: RwLock::new(FxHashSet::default()),
         }
     }
 
@@ -478,6 +486,7 @@ where
             // with an empty `doc_tokens` until then.
             total_tokens: AtomicU64::new(0),
             mutation_gate: RwLock::new(()),
+            stale_ids: RwLock::new(FxHashSet::default()),
         })
     }
 
@@ -785,6 +794,13 @@ where
             });
         }
 
+        // Leftovers of a `remove` that was given non-original text (see
+        // `stale_ids`) go before the id is live again.
+        if self.stale_ids.read().contains(&id) && !self.doc_tokens.contains_key(&id) {
+            self.stale_ids.write().remove(&id);
+            self.sweep_postings(&BTreeSet::from([id]));
+        }
+
         // Phase 1: Update the postings collection
         let bucket_id = self.max_bucket_id.load(Ordering::Acquire);
         let tokens: usize = token_freqs.values().sum();
@@ -977,6 +993,8 @@ where
         let mut buckets_to_update: FxHashMap<u32, FxHashMap<String, usize>> = FxHashMap::default();
         // Remove from inverted index
         let mut maybe_empty_tokens: Vec<String> = Vec::new();
+        // Sum of the term frequencies actually taken out of the postings.
+        let mut removed_freq = 0usize;
         for (token, _) in token_freqs {
             if let Some(mut posting) = self.postings.get_mut(&token) {
                 // Remove every entry for this document. Duplicates can exist
@@ -984,6 +1002,7 @@ where
                 // document was re-inserted afterwards.
                 let mut removed_vals: Vec<(u64, usize)> = Vec::new();
                 while let Some(val) = posting.1.swap_remove_if(|&(idx, _)| idx == id) {
+                    removed_freq += val.1;
                     removed_vals.push(val);
                 }
                 if removed_vals.is_empty() {
@@ -1063,6 +1082,16 @@ where
             }
         }
 
+        // A document's length is the sum of its term frequencies. If the
+        // entries found under the tokens of `text` do not add up to it, `text`
+        // was not what the document was indexed with, and entries filed under
+        // other tokens are still there. Remember the id: `insert` sweeps them
+        // out before the id becomes live again, or term queries would return
+        // it for words its new text does not contain.
+        if removed_tokens.is_some_and(|expected| expected != removed_freq) {
+            self.stale_ids.write().insert(id);
+        }
+
         if was_present {
             self.update_metadata(|m| {
                 m.stats.version += 1;
@@ -1074,84 +1103,13 @@ where
         was_present
     }
 
-    /// Erases a set of document ids from the index **without their text**.
+    /// Drops every posting entry whose document id is in `ids`, whichever token
+    /// it is filed under, and brings the bucket bookkeeping in line (sizes,
+    /// token lists, doc-id sets, dirty marks). Returns whether anything changed.
     ///
-    /// [`remove`](Self::remove) needs the document's original text to know
-    /// which posting lists mention the document. A repair path that lost the
-    /// document body — `anda_db`'s `Collection::reconcile_storage`, which
-    /// drops ids whose stored object vanished in a crash — has no text to
-    /// give, so this method sweeps the inverted index instead and drops every
-    /// posting entry whose document id is in `ids`.
-    ///
-    /// # Cost, and why there is no cheaper route
-    ///
-    /// One pass over every posting list: `O(distinct tokens + posting
-    /// entries)`. The per-bucket `doc_ids` sets look like a document → bucket
-    /// index that could narrow the sweep, but they are a best-effort
-    /// dirty-tracking hint, not a reverse index: a [`remove`](Self::remove)
-    /// given non-original text clears a document from `doc_ids` while leaving
-    /// its posting entries behind (that is exactly the state
-    /// [`load_buckets`](Self::load_buckets) self-heals), so `doc_ids` can
-    /// *under*-report. A repair path must not trust the bookkeeping it exists
-    /// to repair, hence the full sweep. That is acceptable here because this
-    /// is a maintenance operation whose caller already enumerates the
-    /// collection's entire document prefix — and because it takes a *set*, so
-    /// N dead ids cost one pass rather than N.
-    ///
-    /// # Consistency
-    ///
-    /// Every counter is left exactly consistent with the surviving postings:
-    ///
-    /// * each purged id's `doc_tokens` entry is dropped and its token count
-    ///   subtracted from `total_tokens`, so the average document length
-    ///   derived from the two stays correct (a wrong average silently skews
-    ///   every subsequent BM25 score);
-    /// * bucket sizes are decremented by the same estimates
-    ///   [`insert`](Self::insert) accumulated, and a token whose posting list
-    ///   became empty is unlisted from its bucket;
-    /// * every bucket whose serialized content mentioned a purged id is marked
-    ///   dirty, so the purge survives a flush + reload instead of being
-    ///   resurrected from a stale bucket object's `doc_tokens`.
-    ///
-    /// # Arguments
-    ///
-    /// * `ids` — document ids to erase.
-    /// * `now_ms` — wall-clock time, stored in `stats.last_deleted`.
-    ///
-    /// # Returns
-    ///
-    /// The number of ids that were actually present in the index.
-    ///
-    /// # Concurrency
-    ///
-    /// Takes the mutation gate *shared*, exactly like `insert`/`remove`: safe
-    /// alongside them and alongside searches, exclusive against
-    /// [`compact_buckets`](Self::compact_buckets). Like every other mutation
-    /// it must not run concurrently with a flush (see the [`BM25Index`]
-    /// concurrency contract).
-    pub fn purge_ids(&self, ids: &BTreeSet<u64>, now_ms: u64) -> usize {
-        if ids.is_empty() {
-            return 0;
-        }
-
-        // Shared with other mutations, exclusive against `compact_buckets`.
-        let _mutation_guard = self.mutation_gate.read();
-
-        // Phase 1: drop the document lengths. As in `insert`/`remove`, the
-        // token counter follows the `doc_tokens` entries it accounts for.
-        let mut removed_docs = 0usize;
-        let mut removed_tokens = 0u64;
-        for id in ids {
-            if let Some((_, tokens)) = self.doc_tokens.remove(id) {
-                removed_docs += 1;
-                removed_tokens += tokens as u64;
-            }
-        }
-        if removed_tokens > 0 {
-            self.total_tokens
-                .fetch_sub(removed_tokens, Ordering::Relaxed);
-        }
-
+    /// One pass over every posting list; see [`purge_ids`](Self::purge_ids) for
+    /// why nothing cheaper is trustworthy. The caller holds the mutation gate.
+    fn sweep_postings(&self, ids: &BTreeSet<u64>) -> bool {
         // Phase 2: sweep every posting list once, collecting bucket updates
         // instead of applying them, so no `postings` shard guard is held while
         // the `buckets` map is touched.
@@ -1252,6 +1210,90 @@ where
                 }
             }
         }
+
+        purged_postings
+    }
+
+    /// Erases a set of document ids from the index **without their text**.
+    ///
+    /// [`remove`](Self::remove) needs the document's original text to know
+    /// which posting lists mention the document. A repair path that lost the
+    /// document body — `anda_db`'s `Collection::reconcile_storage`, which
+    /// drops ids whose stored object vanished in a crash — has no text to
+    /// give, so this method sweeps the inverted index instead and drops every
+    /// posting entry whose document id is in `ids`.
+    ///
+    /// # Cost, and why there is no cheaper route
+    ///
+    /// One pass over every posting list: `O(distinct tokens + posting
+    /// entries)`. The per-bucket `doc_ids` sets look like a document → bucket
+    /// index that could narrow the sweep, but they are a best-effort
+    /// dirty-tracking hint, not a reverse index: a [`remove`](Self::remove)
+    /// given non-original text clears a document from `doc_ids` while leaving
+    /// its posting entries behind (that is exactly the state
+    /// [`load_buckets`](Self::load_buckets) self-heals), so `doc_ids` can
+    /// *under*-report. A repair path must not trust the bookkeeping it exists
+    /// to repair, hence the full sweep. That is acceptable here because this
+    /// is a maintenance operation whose caller already enumerates the
+    /// collection's entire document prefix — and because it takes a *set*, so
+    /// N dead ids cost one pass rather than N.
+    ///
+    /// # Consistency
+    ///
+    /// Every counter is left exactly consistent with the surviving postings:
+    ///
+    /// * each purged id's `doc_tokens` entry is dropped and its token count
+    ///   subtracted from `total_tokens`, so the average document length
+    ///   derived from the two stays correct (a wrong average silently skews
+    ///   every subsequent BM25 score);
+    /// * bucket sizes are decremented by the same estimates
+    ///   [`insert`](Self::insert) accumulated, and a token whose posting list
+    ///   became empty is unlisted from its bucket;
+    /// * every bucket whose serialized content mentioned a purged id is marked
+    ///   dirty, so the purge survives a flush + reload instead of being
+    ///   resurrected from a stale bucket object's `doc_tokens`.
+    ///
+    /// # Arguments
+    ///
+    /// * `ids` — document ids to erase.
+    /// * `now_ms` — wall-clock time, stored in `stats.last_deleted`.
+    ///
+    /// # Returns
+    ///
+    /// The number of ids that were actually present in the index.
+    ///
+    /// # Concurrency
+    ///
+    /// Takes the mutation gate *shared*, exactly like `insert`/`remove`: safe
+    /// alongside them and alongside searches, exclusive against
+    /// [`compact_buckets`](Self::compact_buckets). Like every other mutation
+    /// it must not run concurrently with a flush (see the [`BM25Index`]
+    /// concurrency contract).
+    pub fn purge_ids(&self, ids: &BTreeSet<u64>, now_ms: u64) -> usize {
+        if ids.is_empty() {
+            return 0;
+        }
+
+        // Shared with other mutations, exclusive against `compact_buckets`.
+        let _mutation_guard = self.mutation_gate.read();
+
+        // Phase 1: drop the document lengths. As in `insert`/`remove`, the
+        // token counter follows the `doc_tokens` entries it accounts for.
+        let mut removed_docs = 0usize;
+        let mut removed_tokens = 0u64;
+        for id in ids {
+            if let Some((_, tokens)) = self.doc_tokens.remove(id) {
+                removed_docs += 1;
+                removed_tokens += tokens as u64;
+            }
+        }
+        if removed_tokens > 0 {
+            self.total_tokens
+                .fetch_sub(removed_tokens, Ordering::Relaxed);
+        }
+
+        // Phases 2-6: sweep the inverted index and the bucket bookkeeping.
+        let purged_postings = self.sweep_postings(ids);
 
         if removed_docs > 0 || purged_postings {
             self.update_metadata(|m| {
